@@ -81,6 +81,10 @@ enum Step {
     /// after `wake_us`, the typist types `key` after `key_us`; `suffix` is typed by the emulator in the same write as
     /// its device-attributes answer
     Position { wake_us: u64, key: Vec<u8>, key_us: u64, delay_ms: u64, suffix: Vec<u8> },
+    /// `execute(DecModeSet { enable, mode })` for a DEC private mode number (25 cursor, 1000/1003/1006 mouse, 7 wrap)
+    Mode(u16, bool),
+    /// the application's own sync: `execute(DeviceAttrs)`; the emulator types `prefix` in the same write BEFORE its answer
+    SyncDA(Vec<u8>),
 }
 
 impl Step {
@@ -105,6 +109,8 @@ impl Step {
             Step::PeerResume => "pr".into(),
             Step::HangUp => "hup".into(),
             Step::Sleep(us) => format!("s:{us}"),
+            Step::Mode(n, on) => format!("m:{n}:{}", if *on { 1 } else { 0 }),
+            Step::SyncDA(prefix) => format!("da:{}", hex(prefix)),
             Step::Position { wake_us, key, key_us, delay_ms, suffix } => format!("pos:{wake_us}:{}:{key_us}:{delay_ms}:{}", hex(key), hex(suffix)),
         }
     }
@@ -132,6 +138,8 @@ impl Step {
             ["pr"] => Step::PeerResume,
             ["hup"] => Step::HangUp,
             ["s", us] => Step::Sleep(us.parse().ok()?),
+            ["m", n, on] => Step::Mode(n.parse().ok()?, *on == "1"),
+            ["da", prefix] => Step::SyncDA(unhex(prefix)?),
             ["pos", w, k, ku, d, sfx] => Step::Position { wake_us: w.parse().ok()?, key: unhex(k)?, key_us: ku.parse().ok()?, delay_ms: d.parse().ok()?, suffix: unhex(sfx)? },
             _ => return None,
         })
@@ -226,6 +234,31 @@ fn epilogue_bytes(caps: &TerminalCaps) -> Vec<u8> {
 
 /// what the property names: mouse reporting off and cursor shown, as xterm control sequences
 const EPILOGUE_REQUIRED: [&[u8]; 4] = [b"\x1b[?25h", b"\x1b[?1000l", b"\x1b[?1003l", b"\x1b[?1006l"];
+
+/// DEC private modes as the emulator has them after the bytes `received`: `ESC [ ? Pm h` sets, `ESC [ ? Pm l` resets
+fn dec_modes(received: &[u8]) -> std::collections::BTreeMap<u32, bool> {
+    let mut modes = std::collections::BTreeMap::new();
+    let mut i = 0;
+    while i + 3 < received.len() {
+        if &received[i..i + 3] == b"\x1b[?" {
+            let mut j = i + 3;
+            while j < received.len() && (received[j].is_ascii_digit() || received[j] == b';') {
+                j += 1;
+            }
+            if j < received.len() && (received[j] == b'h' || received[j] == b'l') {
+                for p in received[i + 3..j].split(|c| *c == b';') {
+                    if let Ok(n) = String::from_utf8_lossy(p).parse::<u32>() {
+                        modes.insert(n, received[j] == b'h');
+                    }
+                }
+            }
+            i = j;
+        } else {
+            i += 1;
+        }
+    }
+    modes
+}
 
 fn find(hay: &[u8], needle: &[u8]) -> Option<usize> {
     if needle.is_empty() || hay.len() < needle.len() {
@@ -352,6 +385,8 @@ struct Shared {
     reply_delay_ms: AtomicU64,
     /// typed by the emulator right behind its next device-attributes answer (same write)
     da_suffix: Mutex<Vec<u8>>,
+    /// typed by the emulator right before its next device-attributes answer (same write)
+    da_prefix: Mutex<Vec<u8>>,
     typed: Arc<Mutex<Vec<u8>>>,
     stop: AtomicBool,
     last_data_ms: AtomicU64,
@@ -394,13 +429,16 @@ fn peer(master: RawFd, keep: RawFd, shared: Arc<Shared>) {
             if tail[i..].starts_with(b"\x1b[c") {
                 shared.at_da.lock().unwrap().push((base, termios_words(keep), Instant::now()));
                 let suffix = std::mem::take(&mut *shared.da_suffix.lock().unwrap());
-                if suffix.is_empty() {
+                let prefix = std::mem::take(&mut *shared.da_prefix.lock().unwrap());
+                if suffix.is_empty() && prefix.is_empty() {
                     master_write(master, DA_REPLY);
                 } else {
-                    let mut reply = DA_REPLY.to_vec();
+                    let mut reply = prefix.clone();
+                    reply.extend_from_slice(DA_REPLY);
                     reply.extend_from_slice(&suffix);
                     let mut log = shared.typed.lock().unwrap();
                     if master_write(master, &reply) {
+                        log.extend_from_slice(&prefix);
                         log.extend_from_slice(&suffix);
                     }
                 }
@@ -745,6 +783,8 @@ struct Runner {
     /// what the terminal read from the tty and queued, in order (diagnostics for lost-input reports)
     input_log: Vec<String>,
     frames_dropped: bool,
+    /// a payload too large to be replayed through the model was written: the session is judged by the oracle only
+    big_output: bool,
     /// the session wants to drop the terminal while the peer does not read
     keep_stalled: bool,
     req: String,
@@ -948,6 +988,9 @@ impl Runner {
     fn exec_other(&mut self, term: &mut SystemTerminal, step: &Step) {
         match step {
             Step::Write(l, t) => {
+                if *l > 1_000_000 {
+                    self.big_output = true;
+                }
                 term.write_all(&synth(*l, *t)).unwrap();
                 self.req.push_str(&format!(" W:{l}:{t}"));
                 self.exp.push(self.state_token(term));
@@ -1046,6 +1089,27 @@ impl Runner {
                 }
             }
             Step::Sleep(us) => std::thread::sleep(Duration::from_micros(*us)),
+            Step::Mode(n, on) => {
+                let mode = match n {
+                    25 => DecMode::VisibleCursor,
+                    1000 => DecMode::MouseReport,
+                    1003 => DecMode::MouseMotions,
+                    1006 => DecMode::MouseSGR,
+                    _ => DecMode::AutoWrap,
+                };
+                let number = if [25u16, 1000, 1003, 1006].contains(n) { *n } else { 7 };
+                term.execute(TerminalCommand::DecModeSet { enable: *on, mode }).unwrap();
+                // the bytes the model queues are written down here, not taken from the crate's encoder
+                let raw = format!("\x1b[?{number}{}", if *on { 'h' } else { 'l' });
+                self.req.push_str(&format!(" w:{}", hex(raw.as_bytes())));
+                self.exp.push(self.state_token(term));
+            }
+            Step::SyncDA(prefix) => {
+                *self.shared.da_prefix.lock().unwrap() = prefix.clone();
+                term.execute(TerminalCommand::DeviceAttrs).unwrap();
+                self.req.push_str(&format!(" w:{}", hex(b"\x1b[c")));
+                self.exp.push(self.state_token(term));
+            }
             Step::Position { wake_us, key, key_us, delay_ms, suffix } => {
                 self.shared.paused.store(false, Ordering::SeqCst);
                 self.shared.reply_delay_ms.store(*delay_ms, Ordering::SeqCst);
@@ -1189,7 +1253,7 @@ fn run_session(s: &Session) -> Outcome {
     let before = termios_words(keep);
     let typed: Arc<Mutex<Vec<u8>>> = Arc::new(Mutex::new(Vec::new()));
     let shared = Arc::new(Shared {
-        reply_delay_ms: AtomicU64::new(0), da_suffix: Mutex::new(Vec::new()), typed: typed.clone(),
+        reply_delay_ms: AtomicU64::new(0), da_suffix: Mutex::new(Vec::new()), da_prefix: Mutex::new(Vec::new()), typed: typed.clone(),
         received: Mutex::new(Vec::new()), count: AtomicUsize::new(0), at_da: Mutex::new(Vec::new()),
         paused: AtomicBool::new(false), answer_size: AtomicBool::new(s.size_esc), stop: AtomicBool::new(false), last_data_ms: AtomicU64::new(0), origin: Instant::now(),
     });
@@ -1247,7 +1311,7 @@ fn run_session(s: &Session) -> Outcome {
         keys_tx, typed, typist_pending, master_closed, in_poll: Arc::new(Mutex::new(InPoll { since: None })),
         stuck: Arc::new(AtomicBool::new(false)), session_thread: unsafe { libc::pthread_self() },
         keys_seen: vec![], wake_events: vec![], resize_events: vec![], term_raised: None, quit_seen: false,
-        hung_up: false, poll_failed: false, input_log: vec![], frames_dropped: false, keep_stalled: s.label.contains("stalled"),
+        hung_up: false, poll_failed: false, input_log: vec![], frames_dropped: false, big_output: false, keep_stalled: s.label.contains("stalled"),
         req: format!("c17 s o:{before_tok}:1111 z:{}", if size_esc { 1 } else { 0 }),
         exp: vec![format!("saved={}/5", words_token(&saved)), "q0/0e0".into()],
         out: outcome,
@@ -1440,12 +1504,15 @@ fn run_session(s: &Session) -> Outcome {
         if !hung_up && !stalled && r.out.inconclusive.is_none() {
             r.out.epilogue_checked = true;
             let tail = &received[send_before.min(received.len())..];
-            let epi = epilogue_bytes(&caps);
-            // (a size query may follow it when a SIGWINCH is handled while the terminal is being released)
-            if find(tail, &epi).is_none() {
-                r.fail("the closing sequence did not reach the tty",
-                    format!("output during drop contains {}", String::from_utf8_lossy(&epi).escape_default()),
-                    format!("last bytes {}", String::from_utf8_lossy(&received[received.len().saturating_sub(epi.len() + 8)..]).escape_default()));
+            // what the closing sequence is FOR, judged on the emulator's side from the bytes it received over the whole
+            // session (independent of what the application or the crate's encoder believe was sent)
+            let modes = dec_modes(&received);
+            let bad: Vec<String> = [(25u32, true), (1000, false), (1003, false), (1006, false)].iter()
+                .filter(|(n, want)| modes.get(n).copied().unwrap_or(*n == 25) != *want)
+                .map(|(n, want)| format!("?{n} {}", if *want { "reset" } else { "set" })).collect();
+            if !bad.is_empty() {
+                r.fail("after the terminal was released the emulator is left with the cursor hidden or mouse reporting on",
+                    "cursor shown (?25 set), mouse reporting off (?1000 ?1003 ?1006 reset)".into(), bad.join(", "));
             }
             for need in EPILOGUE_REQUIRED {
                 if find(tail, need).is_none() {
@@ -1513,6 +1580,7 @@ fn run_session(s: &Session) -> Outcome {
     }
     // shut down
     r.shared.stop.store(true, Ordering::SeqCst);
+    let big_output = r.big_output;
     let Runner { keys_tx, req, exp, mut out, .. } = r;
     drop(keys_tx);
     let _ = peer_thread.join();
@@ -1524,7 +1592,7 @@ fn run_session(s: &Session) -> Outcome {
         }
     }
     // the bytes the renderer queues are not known to the harness: render sessions are judged by the oracle only
-    out.trace = if s.render { None } else { Some((req, exp.join(" "))) };
+    out.trace = if s.render || big_output { None } else { Some((req, exp.join(" "))) };
     out
 }
 
@@ -1607,6 +1675,21 @@ fn fixed_sessions(rng: &mut Rng) -> Vec<Session> {
     v.push(sess("position-fast-answer", vec![WakeInline(1), Position { wake_us: 500, key: b"xy".to_vec(), key_us: 0, delay_ms: 3, suffix: vec![] }, z(), z(), z(), z()], rng.next()));
     v.push(sess("position-input-behind-answer", vec![Keys(b"a".to_vec(), 0), KeysSync, Position { wake_us: 0, key: vec![], key_us: 0, delay_ms: 5, suffix: b"b".to_vec() },
         z(), z(), z()], rng.next()));
+    // DEC modes: what the closing sequence is for.  Modes on and delivered, then released — plainly; after the application's own
+    // clean-up went into a frame that the release drops (behind an explicit flush, behind a backlog); after its clean-up was sent
+    let modes_on = || vec![Mode(1000, true), Mode(1003, true), Mode(1006, true), Mode(25, false), Flush, ms(5), z()];
+    let cleanup = || vec![Mode(1003, false), Mode(1006, false), Mode(1000, false), Mode(25, true)];
+    let at_end = |label: &str, steps: Vec<Step>, rng: &mut Rng| { let n = steps.len(); Session { drop_at: Some(n), ..sess(label, steps, rng.next()) } };
+    v.push(at_end("modes-release-plain", modes_on(), rng));
+    v.push(at_end("modes-cleanup-in-dropped-frame", [modes_on(), vec![Write(10, 1), Flush], cleanup()].concat(), rng));
+    v.push(at_end("modes-cleanup-behind-backlog", [modes_on(), vec![PeerPause, Write(200_000, 2), Flush, ms(2)], cleanup()].concat(), rng));
+    v.push(at_end("modes-cleanup-sent", [modes_on(), cleanup(), vec![Flush, ms(5)]].concat(), rng));
+    // the application's own sync report is still queued when the terminal is released (key and report came in one read)
+    v.push(at_end("stale-sync-report-at-drop", [modes_on(), vec![SyncDA(b"q".to_vec()), ms(20)]].concat(), rng));
+    // one frame of 6 MB in flight (only its beginning accepted by the tty) when the terminal is released; controls 1 and 3 MB
+    for (mb, tag) in [(6usize, 3usize), (1, 4), (3, 5)] {
+        v.push(at_end(&format!("modes-frame-in-flight-{mb}mb"), [modes_on(), vec![PeerPause, Write(mb * 1_000_000, tag), ms(50)]].concat(), rng));
+    }
     // exact numbers of pending wake bytes (a drain loop with a small buffer loses multiples of its size)
     for n in [4usize, 8, 16, 32, 64, 128, 192, 256] {
         v.push(sess(&format!("wake-count-{n}"), vec![WakeInline(n), z(), z(), ms(2)], rng.next()));
@@ -1677,7 +1760,13 @@ fn random_session(rng: &mut Rng, idx: u64, thorough: bool) -> Session {
             }
             11 => steps.push(Winch),
             12 => steps.push(WinchAsync(rng.below(5000))),
-            13 => steps.push(Write(1 + rng.below(3000) as usize, rng.below(95) as usize)),
+            13 => {
+                if rng.chance(1, 3) {
+                    steps.push(Mode(*rng.pick(&[25u16, 1000, 1003, 1006, 7]), rng.chance(1, 2)))
+                } else {
+                    steps.push(Write(1 + rng.below(3000) as usize, rng.below(95) as usize))
+                }
+            }
             14 => steps.push(Exec(rng.below(500) as usize)),
             15 => steps.push(Flush),
             16 => {
@@ -1905,6 +1994,21 @@ fn main() {
         let r = run_guarded(&s);
         if !report(&mut out, &mut tot, &s, r) {
             hung += 1;
+        }
+    }
+    // the write queue behind `execute` / `write`: the closing sequence is queued with `execute_many(..).unwrap_or(())`, so a
+    // queue that refuses data loses it silently — `Write for IOQueue` accepts everything, whatever is already waiting
+    {
+        use surf_n_term::common::IOQueue;
+        let mut q = IOQueue::new();
+        let big = vec![b'x'; 5 << 20];
+        let first = q.write(&big).map_err(|e| e.kind());
+        let second = q.write(b"\x1b[?25h").map_err(|e| e.kind());
+        out.case("ioqueue-backlog", true);
+        if first != Ok(big.len()) || second != Ok(6) || q.len() != big.len() + 6 {
+            out.fail("the write queue refuses output behind a backlog (the closing sequence queued by the release would be lost)",
+                json!({"label": "ioqueue-backlog", "backlog": big.len(), "then": "ESC[?25h"}), json!("both writes accepted in full"),
+                json!(format!("{first:?} then {second:?}, len {}", q.len())));
         }
     }
     finish_extra(&mut out, &tot);
